@@ -106,6 +106,8 @@ def run(chk):
                                  and back["obj"].has_host() and [x for x in back["obj"].segs] in ([], ["_"]) and [x for x in Sn["obj"].segs] in ([], ["_"]))
             if not okeq: viol("resolve(create_reference(S, B), B) = %s differs from S = %s" % (show(tb), show(ts)))
             elif fl == "A": stats["roundtrip_ok"] += 1
+    wp = [(enc_s(s_), enc_s(b_)) for s_, b_, m_ in trip[:: max(1, len(trip) // 4000)]]
+    lib.wrapper_check(chk, exes, wp, ("removebase",), "uriRemoveBaseUri does not behave like uriRemoveBaseUriMm with the default manager (%s)")
     if corr and not chk.violations:
         i, fl, o = corr[0]
         chk.violation("correspondence broken: Model/Shorten.v and uriRemoveBaseUriMm disagree (%d cases)" % len(corr),
